@@ -708,11 +708,34 @@ fn syndrome_faults(ctx: &Ctx, rng: &mut Rng, s: &SizeInfo, b: usize, faults: &mu
     let mut syn: Vec<u8>;
     let mut poly: Vec<u8>; // x^v + p_{v-1} x^{v-1} + ... + p_0, highest degree first
     if flavour >= 16 {
-        // an arbitrary linear recurrence: random taps (the "locator" may have repeated roots, roots outside
-        // the field's block positions, the root 0 when the constant tap is 0, or no roots at all)
+        // an arbitrary linear recurrence. Either random taps (the "locator" may have roots outside the
+        // block positions, the root 0 when the constant tap is 0, or no roots at all), or a polynomial that
+        // splits completely over in-block locators but is NOT squarefree (a double or triple root).
         poly = vec![1u8];
-        for _ in 0..v {
-            poly.push(if rng.chance(1, 8) { 0 } else { rng.byte() });
+        if flavour == 16 || (flavour == 17 && rng.chance(1, 2)) {
+            let mut roots: Vec<u8> = Vec::new();
+            while roots.len() < v {
+                let x = gf.alpha_pow(nb - 1 - rng.below(nb));
+                roots.push(x);
+                if roots.len() < v && rng.chance(1, 2) {
+                    roots.push(x); // repeated
+                }
+            }
+            if v >= 2 && roots.iter().collect::<std::collections::BTreeSet<_>>().len() == v {
+                roots[1] = roots[0];
+            }
+            for x in &roots {
+                let mut np = vec![0u8; poly.len() + 1];
+                for (d, c) in poly.iter().enumerate() {
+                    np[d] ^= *c;
+                    np[d + 1] ^= gf.mul(*c, *x);
+                }
+                poly = np;
+            }
+        } else {
+            for _ in 0..v {
+                poly.push(if rng.chance(1, 8) { 0 } else { rng.byte() });
+            }
         }
         syn = (0..k).map(|_| 0u8).collect();
         for j in 0..k {
